@@ -78,27 +78,28 @@ def validateCreate (c : CreateArgs) : Option Err :=
   else validateCommission c.rate c.maxRate c.maxChange
 
 /-- `MsgSetPower.Validate` -/
-def validateSetPower (target : Option Nat) (power : Nat) : Option Err :=
+def validateSetPower (lf : LimitFacts) (target : Option Nat) (power : Nat) : Option Err :=
   if target.isNone then some Err.invalidAddress
-  else if power < 1000000 then some Err.powerBelowMin
-  else if power > 9223372036854775807 then some Err.invalidRequest
+  else if power < lf.minPower then some Err.powerBelowMin
+  else if lf.maxInt64 && power > 9223372036854775807 then some Err.invalidRequest
   else none
 
 /-! ### handlers -/
 
 /-- the 30 % check after the power was applied -/
-def limitCheck (s : App) (unsafeFlag : Bool) : Except Err App :=
-  if !unsafeFlag && s.height > 1 then
+def limitCheck (lf : LimitFacts) (s : App) (unsafeFlag : Bool) : Except Err App :=
+  if !unsafeFlag && s.height > lf.heightGate then
     if s.cached = 0 then .error Err.unsafePower
     else
-      let percent := ((s.absCh * 100) % U64) / s.cached
-      if percent ≥ 30 then .error Err.unsafePower else .ok s.updateBondedPool
+      let percent := ((s.absCh * lf.mul) % U64) / s.cached
+      if (if lf.ge then decide (percent ≥ lf.pct) else decide (percent > lf.pct)) then .error Err.unsafePower
+      else .ok s.updateBondedPool
   else .ok s.updateBondedPool
 
-def setPowerMsg (s : App) (sg : Signer) (target : Option Nat) (power : Nat) (unsafeFlag : Bool) : Except Err App :=
+def setPowerMsg (lf : LimitFacts) (s : App) (sg : Signer) (target : Option Nat) (power : Nat) (unsafeFlag : Bool) : Except Err App :=
   if !isAdmin sg then .error Err.notAnAuthority
   else
-    match validateSetPower target power with
+    match validateSetPower lf target power with
     | some e => .error e
     | none =>
       let s1 := match target with
@@ -108,7 +109,7 @@ def setPowerMsg (s : App) (sg : Signer) (target : Option Nat) (power : Nat) (uns
         | none => s
       match s1.setPOAPower target (toInt64 power) with
       | .error e => .error e
-      | .ok s2 => s2.limitCheck unsafeFlag
+      | .ok s2 => limitCheck lf s2 unsafeFlag
 
 def isActive (v : Val) : Bool := v.status == .bonded && !v.jailed && decide (powerOf v.tokens > 0)
 
@@ -197,8 +198,8 @@ def liftE (r : Except Err App) : MsgR :=
 
 mutual
 /-- one message through the message router -/
-def handle (s : App) (sg : Signer) : Msg → MsgR
-  | .setPower t p u => liftE (s.setPowerMsg sg t p u)
+def handle (lf : LimitFacts) (s : App) (sg : Signer) : Msg → MsgR
+  | .setPower t p u => liftE (setPowerMsg lf s sg t p u)
   | .remove t => liftE (s.removeMsg sg t)
   | .rmPending t => liftE (s.rmPendingMsg sg t)
   | .create c => liftE (s.createMsg sg c)
@@ -208,15 +209,15 @@ def handle (s : App) (sg : Signer) : Msg → MsgR
   | .staking _ => .unknown
   | .withdraw => .unknown
   | .other => .ok s            -- a small bank transfer from a funded signer: succeeds, no modelled state
-  | .exec ms => handleList s sg ms       -- authz: granter = grantee for every inner message
+  | .exec ms => handleList lf s sg ms    -- authz: granter = grantee for every inner message
   | .groupProp _ => .unknown
   | .govProp _ => .unknown
 /-- messages in order; the first failure aborts -/
-def handleList (s : App) (sg : Signer) : List Msg → MsgR
+def handleList (lf : LimitFacts) (s : App) (sg : Signer) : List Msg → MsgR
   | [] => .ok s
   | m :: ms =>
-    match handle s sg m with
-    | .ok s' => handleList s' sg ms
+    match handle lf s sg m with
+    | .ok s' => handleList lf s' sg ms
     | .err e => .err e
     | .unknown => .unknown
 end
